@@ -640,10 +640,23 @@ pub fn run(ctx: &RunCtx) -> i32 {
         let mut g = Rng::new(derive_seed(ctx.seed, "C12/req", j));
         for i in 0..per {
             let (host_cfg, domain) = gen_host_cfg(&mut g);
+            let bucket = gen_bucket(&mut g);
+            // one key in sixteen repeats the name of its bucket (alone, as first segment, with the base domain)
+            let key = if g.chance(1, 16) {
+                match g.below(5) {
+                    0 => bucket.clone(),
+                    1 => format!("{bucket}/"),
+                    2 => format!("{bucket}/{}", gen_key(&mut g)),
+                    3 => format!("/{bucket}"),
+                    _ => format!("{bucket}.example.com/k"),
+                }
+            } else {
+                gen_key(&mut g)
+            };
             let case = Case {
                 op: OPS[((j * per + i) % OPS.len() as u64) as usize].to_owned(),
-                bucket: gen_bucket(&mut g),
-                key: gen_key(&mut g),
+                bucket,
+                key,
                 host_cfg,
                 domain,
                 path_host: (*g.pick(&["localhost:8014", "127.0.0.1:9000", "unrelated.host", "[::1]:9000"])).to_owned(),
